@@ -258,7 +258,7 @@ def try_hint(hyps, goal, keys):
     return s0 if s0.check() == z3.unsat else None
 
 
-def minimise(hyps, goal, t_proof, deadline_s=600):
+def minimise(hyps, goal, t_proof, deadline_s=240):
     """Greedy (chunked) deletion of quantified hypotheses; returns the hint keys of a subset that still proves the goal
     quickly, or None."""
     M = 1000000
@@ -309,7 +309,7 @@ def discharge(ob, quick=True, retry=False):
         elif st == "undecided" and (retry or mk or not quick):
             # last resort: search for a subset of the quantified hypotheses from which the goal follows quickly (the full
             # set can drown the instantiation heuristics); a proof from a subset is a proof
-            hk2 = minimise(ob["hyps"], g, 4.0, deadline_s=(600 if mk else 150))
+            hk2 = minimise(ob["hyps"], g, 4.0, deadline_s=(300 if mk else 150))
             if hk2 is not None:
                 st, be = "proved", "z3(subset-search)"
                 if mk: ob.setdefault("hint_out", {})[str(ci)] = hk2
